@@ -165,6 +165,18 @@ func (d *DInt) InitDefaults() {
 	d.B = "dflt"
 }
 
+// PI is a primitive type with a default of its own and a Validate method.
+type PI int
+
+// InitDefaults sets the default.
+func (p *PI) InitDefaults() {
+	cb.hit("InitDefaults", "PI", nil, false)
+	*p = 133
+}
+
+// Validate reports to the simulator.
+func (p PI) Validate() error { return cb.hit("Validate", "PI", int(p), true) }
+
 // Inner is a hand-written struct type with an unexported and an ignored field.
 type Inner struct {
 	X      VInt   `config:"x" validate:"simcheck=Inner.x"`
@@ -240,12 +252,15 @@ const (
 	KInline
 	KF32
 	KMSlice
+	KMVInt
+	KPI
+	KPSInt
 	kindCount
 )
 
 var kindNames = [...]string{"int", "int8", "uint16", "float64", "string", "bool", "duration", "*int", "*string", "VInt", "VStr",
 	"UStr", "UInt", "UBool", "UFloat", "UAny", "UCfg", "[]int", "[]string", "[]VInt", "[2]int", "map[string]int", "map[string]interface{}",
-	"interface{}", "*Config", "DInt", "Inner", "*Inner", "struct", "*struct", "[]struct", "map[string]struct", "inline-struct", "float32", "map[string][]int"}
+	"interface{}", "*Config", "DInt", "Inner", "*Inner", "struct", "*struct", "[]struct", "map[string]struct", "inline-struct", "float32", "map[string][]int", "map[string]VInt", "PI", "*[]int"}
 
 func (k Kind) String() string { return kindNames[k] }
 
@@ -257,6 +272,7 @@ var (
 var leafTypes = map[Kind]reflect.Type{
 	KInt: reflect.TypeOf(int(0)), KInt8: reflect.TypeOf(int8(0)), KUint16: reflect.TypeOf(uint16(0)), KF64: reflect.TypeOf(float64(0)),
 	KStr: reflect.TypeOf(""), KBool: reflect.TypeOf(false), KDur: reflect.TypeOf(time.Duration(0)), KF32: reflect.TypeOf(float32(0)), KMSlice: reflect.TypeOf(map[string][]int(nil)),
+	KMVInt: reflect.TypeOf(map[string]VInt(nil)), KPI: reflect.TypeOf(PI(0)), KPSInt: reflect.TypeOf((*[]int)(nil)),
 	KPInt: reflect.TypeOf((*int)(nil)), KPStr: reflect.TypeOf((*string)(nil)),
 	KVInt: reflect.TypeOf(VInt(0)), KVStr: reflect.TypeOf(VStr("")),
 	KUStr: reflect.TypeOf(UStr{}), KUInt: reflect.TypeOf(UInt{}), KUBool: reflect.TypeOf(UBool{}), KUFloat: reflect.TypeOf(UFloat{}),
